@@ -104,3 +104,42 @@ HARNESS(h_route_array2) {
   if (a.f0 && b.f0) P(a.f2 == b.f2 && a.f3 == b.f3, "both routes produce the same value");
   WIT(SZ == 2 ? a.f0 : !a.f0);
 }
+
+/* encode side (route independence, C17): the streaming encode_traits of an integer type emit exactly one integer event that DENOTES the C++ value
+   (int64 event with that signed value, or uint64 event with that unsigned value) - so every format encoder downstream writes the same number as the basic_json route */
+#ifndef TNAME
+#define TNAME u64
+#endif
+#ifndef TBITS
+#define TBITS 64
+#endif
+#ifndef TSIGNED
+#define TSIGNED 0
+#endif
+enum { J_NONE = 0, J_BEGIN_OBJECT, J_END_OBJECT, J_BEGIN_ARRAY, J_END_ARRAY, J_KEY, J_NULL, J_BOOL, J_STRING, J_UINT, J_INT, J_DOUBLE, J_HALF, J_BYTES };
+#define ENC2(n) k_encint_##n
+#define ENC1(n) ENC2(n)
+INPUT(u64, IN_ev) INPUT(u64, IN_ev2)
+static int denotes(const struct S_struct_2ejev* e, int is_signed, u64 val) {   /* val: the C++ value, sign-extended to 64 bits when signed */
+  if (e->f0 == J_INT) return is_signed ? e->f3 == val : ((s64)e->f3 >= 0 && e->f3 == val);
+  if (e->f0 == J_UINT) return is_signed ? ((s64)val >= 0 && e->f3 == val) : e->f3 == val;
+  return 0;
+}
+HARNESS(h_enc_int) {
+  HAVOC(IN_ev);
+  u64 val = TBITS == 64 ? IN_ev : (TSIGNED ? (u64)(((s64)(IN_ev << (64 - TBITS))) >> (64 - TBITS)) : (IN_ev & (((u64)1 << (TBITS % 64)) - 1)));
+  struct S_struct_2ejev ev[4]; memset(ev, 0, sizeof ev); u32 n = 0; IRC_THROW_ALLOWED = 0;
+  ENC1(TNAME)(IN_ev, ev, &n);
+  P(n == 1, "exactly one event, no error");
+  P(denotes(&ev[0], TSIGNED, val), "the integer event denotes the C++ value (signed values as int64, unsigned values never as a negative int64)");
+  P(ev[0].f1 == 0, "no semantic tag");
+  WIT(TSIGNED ? (s64)val < -5 : val > (TBITS == 64 ? 0x8000000000000000ULL : 100));
+}
+HARNESS(h_enc_pair) {
+  HAVOC(IN_ev); HAVOC(IN_ev2);
+  struct S_struct_2ejev ev[4]; memset(ev, 0, sizeof ev); u32 n = 0; IRC_THROW_ALLOWED = 0;
+  k_encpair_u64_i64(IN_ev, IN_ev2, ev, &n);
+  P(n == 4 && ev[0].f0 == J_BEGIN_ARRAY && ev[3].f0 == J_END_ARRAY, "std::pair is written as an array of exactly two elements");
+  P(denotes(&ev[1], 0, IN_ev) && denotes(&ev[2], 1, IN_ev2), "first and second are written in order and denote their values");
+  WIT(IN_ev > 0x8000000000000000ULL && (s64)IN_ev2 < 0);
+}
